@@ -18,7 +18,11 @@ assignments to temporaries that are dead after the loop, followed by appends / i
 common `if` without `else`), the containers are not read inside the loop, and - when more than one container is filled or a
 temporary is used more than once - every call in the expressions is a call the package's effect summary knows to be free of
 effects or a method from PURE_METHODS (splitting the loop changes the order of evaluation, which only pure expressions allow).
-Both directions of the refactoring "explicit loop <-> comprehension" therefore meet in one form."""
+Both directions of the refactoring "explicit loop <-> comprehension" therefore meet in one form.
+
+Three smaller idioms are brought to one spelling as well: `x = np.empty(s, d); x[:] = v` is `x = np.full(s, v, dtype=d)`;
+`if k not in d: d[k] = c` followed by `d[k] += w` is `d[k] = d.get(k, c) + w`; `while t: if c: break; ...` is
+`while t and not c: ...`."""
 from __future__ import annotations
 import ast
 import copy
@@ -198,6 +202,81 @@ def _try_loop(prefix, loop, rest, is_pure_call):
     return k, out
 
 
+def _is_np(call, names):
+    return isinstance(call, ast.Call) and ast.unparse(call.func) in {f"{m}.{n}" for m in ('np', 'numpy') for n in names}
+
+
+def _fill_to_full(a, b):
+    """X = np.empty(S[, D]) ; X[:] = V   ==>   X = np.full(S, V, dtype=D or float)"""
+    if not (isinstance(a, ast.Assign) and len(a.targets) == 1 and isinstance(a.targets[0], ast.Name) and _is_np(a.value, ('empty',))):
+        return None
+    if not (isinstance(b, ast.Assign) and len(b.targets) == 1 and isinstance(b.targets[0], ast.Subscript) and isinstance(b.targets[0].value, ast.Name)
+            and b.targets[0].value.id == a.targets[0].id and isinstance(b.targets[0].slice, ast.Slice)
+            and b.targets[0].slice.lower is None and b.targets[0].slice.upper is None and b.targets[0].slice.step is None):
+        return None
+    call = a.value
+    if a.targets[0].id in _names(b.value) or not call.args or len(call.args) > 2 or any(k.arg not in ('dtype', 'shape') for k in call.keywords):
+        return None
+    dtype = call.args[1] if len(call.args) == 2 else next((k.value for k in call.keywords if k.arg == 'dtype'), ast.Name(id='float', ctx=ast.Load()))
+    new = ast.Assign(targets=[ast.Name(id=a.targets[0].id, ctx=ast.Store())],
+                     value=ast.Call(func=copy.deepcopy(call.func), args=[copy.deepcopy(call.args[0]), copy.deepcopy(b.value)],
+                                    keywords=[ast.keyword(arg='dtype', value=copy.deepcopy(dtype))]))
+    new.value.func.attr = 'full'
+    ast.copy_location(new, a)
+    ast.fix_missing_locations(new)
+    return new
+
+
+def _full_keyword(st):
+    """np.full(S, V, D) -> np.full(S, V, dtype=D): one spelling"""
+    if isinstance(st, ast.Assign) and _is_np(st.value, ('full',)) and len(st.value.args) == 3 and not st.value.keywords:
+        st.value.keywords = [ast.keyword(arg='dtype', value=st.value.args[2])]
+        st.value.args = st.value.args[:2]
+        return True
+    return False
+
+
+def _dict_accumulate(a, b):
+    """if K not in D: D[K] = INIT ; D[K] += W   ==>   D[K] = D.get(K, INIT) + W"""
+    if not (isinstance(a, ast.If) and not a.orelse and len(a.body) == 1 and isinstance(a.test, ast.Compare) and len(a.test.ops) == 1
+            and isinstance(a.test.ops[0], ast.NotIn) and isinstance(a.test.comparators[0], ast.Name)):
+        return None
+    d, k = a.test.comparators[0].id, a.test.left
+    init = a.body[0]
+    if not (isinstance(init, ast.Assign) and len(init.targets) == 1 and isinstance(init.targets[0], ast.Subscript) and isinstance(init.targets[0].value, ast.Name)
+            and init.targets[0].value.id == d and ast.dump(init.targets[0].slice) == ast.dump(k) and isinstance(init.value, ast.Constant)):
+        return None
+    if not (isinstance(b, ast.AugAssign) and isinstance(b.op, ast.Add) and isinstance(b.target, ast.Subscript) and isinstance(b.target.value, ast.Name)
+            and b.target.value.id == d and ast.dump(b.target.slice) == ast.dump(k)):
+        return None
+    if not isinstance(k, (ast.Name, ast.Constant)) or d in _names(b.value):
+        return None
+    get = ast.Call(func=ast.Attribute(value=ast.Name(id=d, ctx=ast.Load()), attr='get', ctx=ast.Load()), args=[copy.deepcopy(k), copy.deepcopy(init.value)], keywords=[])
+    tgt = copy.deepcopy(b.target)
+    tgt.ctx = ast.Store()
+    new = ast.Assign(targets=[tgt], value=ast.BinOp(left=get, op=ast.Add(), right=copy.deepcopy(b.value)))
+    ast.copy_location(new, a)
+    ast.fix_missing_locations(new)
+    return new
+
+
+def _leading_break(loop):
+    """while T: if C: break ; REST   ==>   while T and not C: REST   (no else clause; T is evaluated before C in both)"""
+    if not (isinstance(loop, ast.While) and not loop.orelse and len(loop.body) >= 2):
+        return False
+    first = loop.body[0]
+    if not (isinstance(first, ast.If) and not first.orelse and len(first.body) == 1 and isinstance(first.body[0], ast.Break)):
+        return False
+    neg = ast.UnaryOp(op=ast.Not(), operand=first.test)
+    if isinstance(first.test, ast.Compare) and len(first.test.ops) == 1 and type(first.test.ops[0]) in (ast.Eq, ast.NotEq, ast.Is, ast.IsNot, ast.In, ast.NotIn):
+        flip = {ast.Eq: ast.NotEq, ast.NotEq: ast.Eq, ast.Is: ast.IsNot, ast.IsNot: ast.Is, ast.In: ast.NotIn, ast.NotIn: ast.In}
+        neg = ast.Compare(left=first.test.left, ops=[flip[type(first.test.ops[0])]()], comparators=first.test.comparators)
+    loop.test = ast.BoolOp(op=ast.And(), values=[loop.test, neg])
+    loop.body = loop.body[1:]
+    ast.fix_missing_locations(loop)
+    return True
+
+
 def normalise_function(fn: ast.FunctionDef, is_pure_call=None):
     """in place; returns the number of loops rewritten"""
     if is_pure_call is None:
@@ -216,6 +295,17 @@ def normalise_function(fn: ast.FunctionDef, is_pure_call=None):
             if isinstance(st, ast.Try):
                 for h in st.handlers:
                     h.body = block(h.body)
+            if isinstance(st, ast.While) and _leading_break(st):
+                count[0] += 1
+            if _full_keyword(st):
+                count[0] += 1
+            if res:
+                merged = _fill_to_full(res[-1], st) or _dict_accumulate(res[-1], st)
+                if merged is not None:
+                    res[-1] = merged
+                    count[0] += 1
+                    i += 1
+                    continue
             r = _try_loop(res, st, stmts[i + 1:], is_pure_call) if isinstance(st, ast.For) else None
             if r is not None:
                 k, new = r
